@@ -1,5 +1,5 @@
-use proc_macro2::{Span, TokenStream, TokenTree};
-use quote::{quote, ToTokens};
+use proc_macro2::{TokenStream, TokenTree};
+use quote::{format_ident, quote, ToTokens};
 use syn::parse_quote;
 use syn::{Data, DeriveInput, Fields};
 
@@ -38,7 +38,7 @@ pub fn enum_discriminants_inner(ast: &DeriveInput) -> syn::Result<TokenStream> {
     };
 
     // Work out the name
-    let default_name = syn::Ident::new(&format!("{}Discriminants", name), Span::call_site());
+    let default_name = format_ident!("{}Discriminants", name);
 
     let discriminants_name = type_properties.discriminant_name.unwrap_or(default_name);
     let discriminants_vis = type_properties
